@@ -593,11 +593,11 @@ class Model:
             if v[0] == "tuple":
                 cur = v
                 ok = True
-                for i in path:
-                    if cur[0] == "tuple" and i < len(cur[1]):
+                for k, i in enumerate(path):
+                    if isinstance(cur, tuple) and cur and cur[0] == "tuple" and i < len(cur[1]):
                         nxt = cur[1][i]
                         # elements are frozensets of origins
-                        if len(path) == 1 or i == path[-1]:
+                        if k == len(path) - 1:
                             cur = nxt
                         else:
                             cur = next(iter(nxt)) if len(nxt) == 1 else ("unknown", "nested-tuple")
